@@ -1,3 +1,4 @@
+import corr_bridge
 import corr_cache
 import oracle_cache
 
@@ -20,8 +21,12 @@ def oracle_c08(seed, tier):
     return oracle_cache.check_c08(seed, tier)
 
 
+def corr_reader_groups(seed, tier):
+    return corr_bridge.check(seed, tier)
+
+
 def checks(tier):
-    return [corr_codec,corr_json, oracle_c08]
+    return [corr_reader_groups, corr_codec,corr_json, oracle_c08]
 
 
 def replay(payload):
